@@ -36,7 +36,7 @@ def compile_history(hist):
             k = len(h["args"])
             # distinct names: a nested definition of the same name would make VAR_f local in the
             # enclosing function body (Python scoping of the transpiled code), which is not this property
-            name = "fghjkmpqrstuvwyz"[fcount % 16] + ("" if fcount < 16 else "abcdefgh"[(fcount // 16) % 8])
+            name = "fghjmpqrstuvwyzb"[fcount % 16] + ("" if fcount < 16 else "abcdefgh"[(fcount // 16) % 8])
             fcount += 1
             out.append(f"@{name}:{k}|" + "_" * k)
             stack.append(";" + "".join(f"{x} " for x in h["args"]) + f"@{name};")
